@@ -3,12 +3,14 @@
 set -u
 tag=$1; shift
 cd /verif || exit 2
+if [ -z "${SKIP_PICK:-}" ]; then
 echo "== cherry-pick fix-$tag into /repo"
 base=$(git -C /repo merge-base main fix-$tag)
 for c in $(git -C /repo rev-list --reverse $base..fix-$tag); do
   git -C /repo cherry-pick -x $c >/dev/null 2>&1 || { echo "CHERRY-PICK CONFLICT at $c"; git -C /repo status --short | head; exit 1; }
   echo "  picked $(git -C /repo log -1 --format='%h %s')"
 done
+fi
 echo "== merge build-$tag"
 git merge --no-ff --no-commit build-$tag >/dev/null 2>&1
 for f in MANIFEST.json known_findings.json lean/Driver/Main.lean lean/LiquidVerif.lean; do
